@@ -365,6 +365,7 @@ private:
         e.m_lru_position   = m_lru_end;
         e.m_ttl_position   = std::prev(m_ttl_list.end());
         e.m_keyed_position = keyed_position;
+        do_file_ttl(e);
 
         ++m_lru_end;
 
@@ -384,8 +385,28 @@ private:
 
         // push to the end of the ttl list
         m_ttl_list.splice(m_ttl_list.end(), m_ttl_list, e.m_ttl_position);
+        do_file_ttl(e);
 
         do_access(e);
+    }
+
+    /**
+     * Keeps the ttl list ordered by expire time.  Expects the element's ttl node to be the last node
+     * of the list.  While the uniform TTL is constant the tail is already the right place, this only
+     * walks backwards over elements that expire later, i.e. after update_ttl() shortened the TTL.
+     */
+    auto do_file_ttl(element& e) -> void
+    {
+        auto position = e.m_ttl_position;
+        while (position != m_ttl_list.begin() && m_elements[*std::prev(position)].m_expire_time > e.m_expire_time)
+        {
+            --position;
+        }
+
+        if (position != e.m_ttl_position)
+        {
+            m_ttl_list.splice(position, m_ttl_list, e.m_ttl_position);
+        }
     }
 
     auto do_erase(size_t element_idx) -> void
